@@ -124,6 +124,7 @@ class Sim:
         self.trace = []
         self.choices = []
         self.live_lock_breaks = 0
+        self.zpids = set(ctx.get("zpids") or []) if isinstance(ctx, dict) else set()
         self.hold_off = False
         self.job_events_written = []
         self.job_events_pending = {}
@@ -335,13 +336,13 @@ class Sim:
         if k == "waited":
             self.pending.pop(msg["child"], None)
 
-    @staticmethod
-    def wait_zombie(pid, limit=3.0):
+    def wait_zombie(self, pid, limit=3.0):
         """The socket EOF of an exiting process can reach the driver a moment before the process is reapable, and liveness
         tests of others (waitpid(WNOHANG) of a polling parent, kill(pid, 0) of filelock's stale-lock test) would then depend
-        on real time.  Wait until it is a zombie whose parent reaps at a scheduling point of its own, or - when the parent
-        reaps asynchronously (the fork server, init) - until it is gone."""
+        on real time.  Wait until it is a zombie (its parent reaps at a scheduling point of its own), or - when the parent
+        reaps asynchronously (the fork server itself, init) - until it is gone."""
         t = time.time() + limit
+        zp = self.zpids
         while time.time() < t:
             try:
                 with open(f"/proc/{pid}/stat") as f:
@@ -349,22 +350,22 @@ class Sim:
                 rest = st[st.rfind(")") + 2:].split()
                 if rest[0] in "ZX":
                     ppid = int(rest[1])
-                    try:
-                        with open(f"/proc/{ppid}/cmdline", "rb") as f:
-                            pc = f.read()
-                    except OSError:
+                    if ppid not in zp and ppid != 1:
                         return
-                    if ppid != 1 and b"zygote.py" not in pc:
-                        return
+                    if ppid == 1:
+                        limit1 = getattr(self, "_orphan_wait", 0.2)
+                        if time.time() > t - limit + limit1:
+                            return  # init does not reap here: do not wait for it
             except (OSError, IndexError, ValueError):
                 return
             time.sleep(0.0005)
 
     def on_close(self, a):
+        _skip = os.environ.get("VSIM_NO_WAIT_ZOMBIE")
         a.state = "dead"
         if self.outage_freeze and a.pid in self.outage_fails:
             self.outage_freeze = False
-        if a.pid:
+        if a.pid and not _skip:
             self.wait_zombie(a.pid)
         if a.pid in self.rounds:
             self.round_ended.append(a.pid)
